@@ -163,6 +163,26 @@ func (w *World) checkSnap(cur *Snap) {
 	for _, k := range cur.StrayKeys {
 		w.violate("C07", "store", "record-that-is-neither-vertex-nor-funds-in-vertex-store", cur.Node, "key %q", shortAddr(k))
 	}
+	// a parked vertex all of whose declared parents are in the ledger, one of them only in storage, waits for
+	// ever: the retry looks its parents up in the graph alone (known finding: truncation is not transparent to
+	// vertices that were built on what a node has meanwhile checkpointed)
+	for _, pk := range cur.Parked {
+		v := pk.Vertex
+		all, stored := true, false
+		for _, ph := range declParents(&v) {
+			if _, ok := cur.Live[ph]; ok {
+				continue
+			}
+			if _, ok := cur.Stored[ph]; ok {
+				stored = true
+				continue
+			}
+			all = false
+		}
+		if all && stored {
+			w.violate("C07", "transparent", "vertex-parked-for-ever-behind-checkpointed-parent", cur.Node, "vertex %s weight %d", hx(v.Hash), v.Weight)
+		}
+	}
 	w.oracleC09(cur)
 	w.oracleC03(cur)
 	w.oracleC10(cur)
